@@ -123,6 +123,7 @@ func replay(id, file string, verbose bool) int {
 	}
 	c := core.NewCtx(id, "quick", seed(), 0, 1, "")
 	c.Replay = verbose
+	c.Strict = true
 	if verbose {
 		fmt.Printf("replaying %s case from %s\n", id, file)
 		if rf.Msg != "" {
